@@ -43,16 +43,16 @@ impl SyntaxTree {
     pub fn get_str_trim<'a, T: Into<RefNodes<'a>>>(&self, nodes: T) -> Option<&str> {
         let mut beg = None;
         let mut end = 0;
-        let mut skip = false;
+        let mut skip = 0usize;
         for n in Iter::new(nodes.into()).event() {
             match n {
                 NodeEvent::Enter(RefNode::WhiteSpace(_)) => {
-                    skip = true;
+                    skip += 1;
                 }
                 NodeEvent::Leave(RefNode::WhiteSpace(_)) => {
-                    skip = false;
+                    skip -= 1;
                 }
-                NodeEvent::Enter(RefNode::Locate(x)) if !skip => {
+                NodeEvent::Enter(RefNode::Locate(x)) if skip == 0 => {
                     if beg.is_none() {
                         beg = Some(x.offset);
                     }
